@@ -112,6 +112,47 @@ class Tracer(object):
         return lines
 
 
+class FuncCov(object):
+    """Diagnostic only (VERIF_FUNCCOV=<dir>): which functions of the repository a check executes.
+
+    Used by tools/funccov.py to list the functions of a property's anchored files that no state
+    reaches - the driver holes.  Not part of any verdict."""
+    TOOL = 4
+
+    def __init__(self, outdir):
+        self.outdir = outdir
+        self.seen = set()
+        self.root = os.path.join(os.path.realpath(REPO), 'odl') + os.sep
+        mon = sys.monitoring
+        try:
+            mon.use_tool_id(self.TOOL, 'verif-funccov')
+        except ValueError:
+            pass
+        mon.register_callback(self.TOOL, mon.events.PY_START, self._start)
+        mon.set_events(self.TOOL, mon.events.PY_START)
+
+    def _start(self, code, offset):
+        fn = code.co_filename
+        if fn.startswith(self.root):
+            self.seen.add('%s:%s:%d' % (fn[len(self.root):], code.co_qualname, code.co_firstlineno))
+        return sys.monitoring.DISABLE
+
+    def dump(self):
+        os.makedirs(self.outdir, exist_ok=True)
+        with open(os.path.join(self.outdir, '%d.txt' % os.getpid()), 'w') as f:
+            f.write('\n'.join(sorted(self.seen)) + '\n')
+
+
+_FUNCCOV = None
+
+
+def _funccov_init():
+    global _FUNCCOV
+    d = os.environ.get('VERIF_FUNCCOV')
+    if d and _FUNCCOV is None:
+        _FUNCCOV = FuncCov(d)
+
+
 # --------------------------------------------------------------------------------------
 # worker side
 
@@ -133,6 +174,7 @@ def _init_worker(prop):
         except Exception:
             funcs = []
     _TRACER = Tracer(funcs) if funcs else None
+    _funccov_init()
 
 
 def run_one(mod, cfg, tracer=None):
@@ -179,6 +221,8 @@ def _work(chunk):
         res['_worker'] = (os.getpid(), _SEQ[0])
         out.append((idx, res))
     hits = sorted(_TRACER.all_hits) if _TRACER is not None else []
+    if _FUNCCOV is not None:
+        _FUNCCOV.dump()
     return out, hits
 
 
